@@ -27,6 +27,8 @@ def step (line : String) : String :=
   | "tls" :: rest => Driver.Tls.run rest
   | "rec" :: rest => Driver.KeepAlive.run rest
   | "rq" :: rest => Driver.ReqClient.run rest
+  | "rqcut" :: rest => Driver.ReqClient.runCut rest
+  | "rqreuse" :: rest => Driver.ReqClient.runReuse rest
   | "pp" :: rest => Driver.PubClient.run rest
   | "ppx" :: rest => Driver.PubClient.run rest
   | "tn" :: rest => Driver.Topic.run "tn" rest
